@@ -5,12 +5,24 @@
    of the harmonic satisfaction over ALL n-subsets (the itertools.combinations scan is complete
    and sound); every SPAV round elects the strictly best reweighted candidate; score voting and
    majority judgment rank through get_n_best of the exact aggregate (so the C09 theorems apply).
-   STAR, allocated score, the MJ tie-breakers' defining clauses and justified representation are
-   decided per explored case against independent references (evidence: partial). *)
+   Majority judgment (every seat count, both tie-breakers): whoever is elected has a (lower) median at
+   least that of whoever is not; single seat: the plus tie-break elects the member of the tie with strictly
+   the most scores at or above the shared median, the default tie-break elects the strict leader after
+   rounds of median removal - but over ALL initially tied candidates, so that a candidate who fell strictly
+   behind can still win (C12_mj_tiebreak_documented_refuted; replayed on votelib).
+   Justified representation of the PAV committee for weighted ballots: C12_pav_jr (Aziz et al. 2017 swap
+   argument; the sharper bound weight * (n+1) <= total is C12_pav_jr_bound).
+   STAR (Model/Star.v, default configuration), one seat, two untied finalists: the winner is one of the two top
+   scorers and strictly more ballot weight places it above the other finalist (C12_star_runoff); other run-off
+   sizes are modelled and compared with the code only.
+   Allocated score is decided per explored case against an independent reference (evidence: partial). *)
 From Coq Require Import ZArith QArith List.
-From VL Require Import Prelude.PyDict Model.GetNBest Model.Convert Model.Cardinal Proofs.Cardinal_proofs.
+From VL Require Import Prelude.PyDict Model.GetNBest Model.Convert Model.Cardinal Proofs.Cardinal_proofs
+     Proofs.MJ_proofs Proofs.JR_proofs Model.Condorcet Model.Star Proofs.Star_proofs.
+From Coq Require Import Permutation.
 Import ListNotations.
 Close Scope Q_scope.
+Close Scope Z_scope.
 
 Theorem C12_combinations_complete : forall l n s, subseq s l -> length s = n -> In s (combos l n).
 Proof. exact combos_complete. Qed.
@@ -55,6 +67,162 @@ Example C12_example :
   pav [([1%positive; 2%positive], 3#1); ([3%positive], 2#1)]%Q 2 = AR_nie.
 Proof. vm_compute. right. reflexivity. Qed.
 
+(* ---- majority judgment: the elected candidates have the highest (lower) medians.
+   [med] is the exact lower median of every candidate's corrected scores; nobody who is not elected has a
+   higher median than somebody who is (any seat count, either tie-breaker, ties left in the answer included) *)
+Theorem C12_mj_highest_median : forall plus cf votes n sc med r,
+  1 <= n ->
+  corrected_scores cf votes = inl sc -> aggregate FMedianLow sc = inl med ->
+  majority_judgment plus cf votes n = inl r ->
+  forall c, In (Cand c) r ->
+    exists vc, In (c, vc) med /\
+      forall c' vc', In (c', vc') med -> ~ In (Cand c') r -> (vc' <= vc)%Q.
+Proof. exact mj_highest_median. Qed.
+
+(* single seat: the winner's median is the highest of all *)
+Theorem C12_mj_single_highest_median : forall plus cf votes sc med c,
+  corrected_scores cf votes = inl sc -> aggregate FMedianLow sc = inl med ->
+  majority_judgment plus cf votes 1 = inl [Cand c] ->
+  exists vc, In (c, vc) med /\ forall c' vc', In (c', vc') med -> (vc' <= vc)%Q.
+Proof. exact mj_single_highest_median. Qed.
+
+(* equal medians, single seat.
+   plus ("the highest amount of scores higher or equal to the median"): every other candidate with the same
+   median has strictly fewer scores at or above it.
+   default ("removes median scores from tied candidates until the median of the remaining scores differs"):
+   either the winner leads outright, or it is the strict leader of the medians after some rounds [mj_rounds]
+   of removing >= 1 copies of every tied candidate's current median, the lead being shared before each round *)
+Theorem C12_mj_tiebreak : forall cf votes sc med c,
+  corrected_scores cf votes = inl sc -> aggregate FMedianLow sc = inl med ->
+  (majority_judgment true cf votes 1 = inl [Cand c] ->
+     forall vc d c' vc' d', In (c, vc) med -> In (c, d) sc ->
+       In (c', vc') med -> In (c', d') sc -> c' <> c -> (vc' == vc)%Q ->
+       (counts_over d' vc < counts_over d vc)%Z) /\
+  (majority_judgment false cf votes 1 = inl [Cand c] ->
+     (exists v, In (c, v) med /\ forall c' v', In (c', v') med -> c' <> c -> (v' < v)%Q) \/
+     (exists tied sub' medians' v,
+        get_n_best Qle_bool med 1 = [TieR tied] /\
+        mj_rounds (filter (fun cd : C * cscores => cmem (fst cd) tied) sc) sub' /\
+        aggregate FMedianLow sub' = inl medians' /\
+        In (c, v) medians' /\ forall c' v', In (c', v') medians' -> c' <> c -> (v' < v)%Q)).
+Proof.
+  intros cf votes sc med c Hsc Hmed. split.
+  - intros Hr. exact (mj_plus_rule cf votes sc med c Hsc Hmed Hr).
+  - intros Hr. exact (mj_default_tiebreak cf votes sc med c Hsc Hmed Hr).
+Qed.
+
+(* the documented default rule stops at the first round in which the medians differ and elects the highest new
+   median; the loop goes on over all initially tied candidates instead.  Full statement (false): *)
+Definition C12_mj_tiebreak_documented_full_statement : Prop :=
+  forall cf votes sc med tied c sub1 medians1,
+    corrected_scores cf votes = inl sc -> aggregate FMedianLow sc = inl med ->
+    get_n_best Qle_bool med 1 = [TieR tied] ->
+    majority_judgment false cf votes 1 = inl [Cand c] ->
+    mj_rounds (filter (fun cd : C * cscores => cmem (fst cd) tied) sc) sub1 ->
+    aggregate FMedianLow sub1 = inl medians1 ->
+    forall v c' v', In (c, v) medians1 -> In (c', v') medians1 -> (v' <= v)%Q.
+
+Theorem C12_mj_tiebreak_documented_refuted :
+  exists cf votes sc med tied c c' sub1 medians1 v v',
+    corrected_scores cf votes = inl sc /\ aggregate FMedianLow sc = inl med /\
+    get_n_best Qle_bool med 1 = [TieR tied] /\
+    majority_judgment false cf votes 1 = inl [Cand c] /\
+    mj_rounds (filter (fun cd : C * cscores => cmem (fst cd) tied) sc) sub1 /\
+    aggregate FMedianLow sub1 = inl medians1 /\
+    In (c, v) medians1 /\ In (c', v') medians1 /\ (v < v')%Q.
+Proof. exact mj_default_documented_refuted. Qed.
+
+Theorem C12_mj_tiebreak_documented_false : ~ C12_mj_tiebreak_documented_full_statement.
+Proof.
+  intros H. destruct C12_mj_tiebreak_documented_refuted as (cf & votes & sc & med & tied & c & c' & sub1 & medians1 & v & v' &
+    H1 & H2 & H3 & H4 & H5 & H6 & H7 & H8 & H9).
+  pose proof (H cf votes sc med tied c sub1 medians1 H1 H2 H3 H4 H5 H6 v c' v' H7 H8) as Hle.
+  apply (Qlt_not_le _ _ H9 Hle).
+Qed.
+
+(* ---- justified representation of the PAV committee (weighted ballots).
+   No group G of voters who all approve a common candidate c and none of whom approves any member of the
+   committee W weighs total / n or more; in fact weight(G) * (n + 1) <= total. *)
+Theorem C12_pav_jr_bound : forall votes n W,
+  (forall bw, In bw votes -> (0 <= snd bw)%Q /\ NoDup (fst bw)) ->
+  pav_best votes (canon_set (flat_map fst votes)) n = [W] ->
+  forall G c, subseq G votes ->
+    (forall bw, In bw G -> In c (fst bw) /\ forall w, In w W -> ~ In w (fst bw)) ->
+    (qsum (map snd G) * inject_Z (Z.of_nat (n + 1)) <= qsum (map snd votes))%Q.
+Proof. exact pav_jr_groups. Qed.
+
+Theorem C12_pav_jr : forall votes n W,
+  (forall bw, In bw votes -> (0 <= snd bw)%Q /\ NoDup (fst bw)) ->
+  pav_best votes (canon_set (flat_map fst votes)) n = [W] ->
+  forall G c, subseq G votes ->
+    (forall bw, In bw G -> In c (fst bw) /\ forall w, In w W -> ~ In w (fst bw)) ->
+    (0 < qsum (map snd G))%Q ->
+    (qsum (map snd G) * inject_Z (Z.of_nat n) < qsum (map snd votes))%Q.
+Proof. exact pav_jr. Qed.
+
+(* the same about what pav answers: the answer lists exactly the maximising committee *)
+Theorem C12_pav_committee : forall votes n r, pav votes n = AR_ok r ->
+  exists W s, pav_best votes (canon_set (flat_map fst votes)) n = [W] /\ Permutation s W /\ r = map Cand s.
+Proof. exact pav_committee. Qed.
+
+Theorem C12_pav_jr_answer : forall votes n r,
+  (forall bw, In bw votes -> (0 <= snd bw)%Q /\ NoDup (fst bw)) ->
+  pav votes n = AR_ok r ->
+  forall G c, subseq G votes ->
+    (forall bw, In bw G -> In c (fst bw) /\ forall w, In (Cand w) r -> ~ In w (fst bw)) ->
+    (0 < qsum (map snd G))%Q ->
+    (qsum (map snd G) * inject_Z (Z.of_nat n) < qsum (map snd votes))%Q.
+Proof.
+  intros votes n r Hv Hr G c HG Hgrp Hpos.
+  destruct (pav_committee votes n r Hr) as (W & s & Hbest & Hp & ->).
+  apply (pav_jr votes n W Hv Hbest G c HG); [|exact Hpos].
+  intros bw Hbw. destruct (Hgrp bw Hbw) as [H1 H2]. split; [exact H1|].
+  intros w Hw. apply H2. apply in_map. apply (Permutation_in _ (Permutation_sym Hp) Hw).
+Qed.
+
+(* the hypotheses are met by an ordinary profile, which has a committee (not a refusal) *)
+Example C12_jr_example :
+  let votes := [([1%positive; 2%positive], 3#1); ([3%positive], 2#1); ([1%positive; 3%positive], 1#1)]%Q in
+  pav votes 2 = AR_ok [Cand 1%positive; Cand 3%positive] /\
+  (forall bw, In bw votes -> (0 <= snd bw)%Q /\ NoDup (fst bw)).
+Proof.
+  split; [vm_compute; reflexivity|].
+  intros bw [<-|[<-|[<-|[]]]]; (split; [discriminate|repeat constructor; simpl; intuition discriminate]).
+Qed.
+
+(* ---- STAR (default configuration), one seat.  [a] and [b] are the run-off: the two highest score sums, not tied
+   with the third.  [support votes x y] is the ballot weight that scores x and scores y lower or not at all.
+   [order] is the iteration order of the candidate set inside Schulze.widest_paths (any order of the finalists). *)
+Theorem C12_star_support : forall votes a b, a <> b ->
+  pget0 (star_pairwise votes [a; b]) (a, b) = support votes a b /\
+  pget0 (star_pairwise votes [a; b]) (b, a) = support votes b a.
+Proof. exact pairwise_support. Qed.
+
+Theorem C12_star_runoff : forall votes order agg a b c,
+  score_to_simple star_cfg votes = inl agg ->
+  get_n_best Qle_bool agg 2 = [Cand a; Cand b] ->
+  (forall x, In x order -> x = a \/ x = b) ->
+  star votes order 1 = inl [Cand c] ->
+  (c = a /\ (support votes b a < support votes a b)%Z) \/ (c = b /\ (support votes a b < support votes b a)%Z).
+Proof. exact star_runoff. Qed.
+
+(* the same for the order the wire wrapper uses (first appearance in the pairwise dictionary) *)
+Theorem C12_star_auto_runoff : forall votes agg a b c,
+  score_to_simple star_cfg votes = inl agg ->
+  get_n_best Qle_bool agg 2 = [Cand a; Cand b] ->
+  star_auto votes 1 = inl [Cand c] ->
+  (c = a /\ (support votes b a < support votes a b)%Z) \/ (c = b /\ (support votes a b < support votes b a)%Z).
+Proof. exact star_auto_runoff. Qed.
+
+(* a profile on which the top scorer (1: 9 points against 8) loses the run-off to 2 (preferred by 3 voters to 2) *)
+Example C12_star_example :
+  let votes : sprofile := [([(1%positive, 5#1); (2%positive, 0#1); (3%positive, 0#1)], 1%Z);
+                           ([(1%positive, 4#1); (2%positive, 2#1)], 1%Z);
+                           ([(1%positive, 0#1); (2%positive, 2#1); (3%positive, 1#1)], 3%Z)]%Q in
+  (exists agg, score_to_simple star_cfg votes = inl agg /\ get_n_best Qle_bool agg 2 = [Cand 1%positive; Cand 2%positive]) /\
+  star_auto votes 1 = inl [Cand 2%positive].
+Proof. split; [eexists; split; vm_compute; reflexivity|vm_compute; reflexivity]. Qed.
+
 Print Assumptions C12_combinations_complete.
 Print Assumptions C12_combinations_sound.
 Print Assumptions C12_pav_optimal.
@@ -62,3 +230,15 @@ Print Assumptions C12_pav_refusal.
 Print Assumptions C12_spav_round.
 Print Assumptions C12_spav_extends.
 Print Assumptions C12_score_rank.
+Print Assumptions C12_mj_highest_median.
+Print Assumptions C12_mj_single_highest_median.
+Print Assumptions C12_mj_tiebreak.
+Print Assumptions C12_mj_tiebreak_documented_refuted.
+Print Assumptions C12_mj_tiebreak_documented_false.
+Print Assumptions C12_pav_jr_bound.
+Print Assumptions C12_pav_jr.
+Print Assumptions C12_pav_committee.
+Print Assumptions C12_pav_jr_answer.
+Print Assumptions C12_star_support.
+Print Assumptions C12_star_runoff.
+Print Assumptions C12_star_auto_runoff.
